@@ -399,7 +399,16 @@ def constructed_entries(rng, entries):
                             data.Posting('Assets:Cash', Amount(D('-28'), 'USD'), None, None, None, None)])
     dup_open = data.Open(dict(meta, lineno=3, note='second open'), last + datetime.timedelta(days=3), 'Assets:Cash', None, None)
     dup_close = data.Close(dict(meta, lineno=4), last + datetime.timedelta(days=4), 'Expenses:Fees')
-    out += [one, six, lot, dup_open, dup_close]
+    # equal postings (same account, units, no cost, no price, no flag, no metadata -- as importers and scripts build them): the same
+    # purchase on successive days, and twice within one transaction
+    coffee = [data.Transaction(dict(meta, lineno=20 + i), last + datetime.timedelta(days=5 + i), '*', 'Cafe', 'coffee', data.EMPTY_SET, data.EMPTY_SET,
+                               [data.Posting('Expenses:Food', Amount(D('3.50'), 'USD'), None, None, None, None),
+                                data.Posting('Assets:Cash', Amount(D('-3.50'), 'USD'), None, None, None, None)]) for i in range(3)]
+    twice = data.Transaction(dict(meta, lineno=30), last + datetime.timedelta(days=9), '*', None, 'the same posting twice', data.EMPTY_SET, data.EMPTY_SET,
+                             [data.Posting('Expenses:Food', Amount(D('3.50'), 'USD'), None, None, None, None),
+                              data.Posting('Expenses:Food', Amount(D('3.50'), 'USD'), None, None, None, None),
+                              data.Posting('Assets:Cash', Amount(D('-7.00'), 'USD'), None, None, None, None)])
+    out += [one, six, lot, dup_open, dup_close] + coffee + [twice]
     return out
 
 
